@@ -482,6 +482,7 @@ def run(chk: Check) -> None:
     run_like_pair(chk, prog)
     run_text(chk, prog)
     run_like_terms_promise(chk, prog)
+    run_rand_vars(chk, prog)
     # contracts of other parts of the library this check takes for granted (summaries, token model, reference grammar):
     # the clauses that check the source against them, replayed under this property (props/contracts.py)
     from .contracts import run_contracts
@@ -490,6 +491,71 @@ def run(chk: Check) -> None:
 
 
 # --------------------------------------------------------------------------- R7 promised like terms among the terms
+def run_rand_vars(chk: Check, prog: Program) -> None:
+    """get_rand_vars itself (the generators above take it by this contract: n distinct fresh variables, none excluded).
+    Draws of rand_var are symbolic identifiers; `x in exclude_vars` / set insertion fork on their equality.  On every
+    returning path the result must have the requested length, and every result must be *known* different from every
+    excluded variable and from every other result (a pair the path says nothing about can be the same letter)."""
+    from sa.absint import Ident, PathInfeasible
+    chk.rule("C17.R8", "get_rand_vars(n, exclude): n results, pairwise distinct, none of them excluded, drawn from the pool "
+             "the caller asked for (n <= 3, up to 2 excluded variables, draw sequences of up to n+2 draws)", minimum=30)
+    grv = prog.func("problems", "get_rand_vars")
+    for n in (1, 2, 3):
+        for nex in (None, 0, 1, 2):
+            for common in (False, True):
+                def body(it: Interp, n=n, nex=nex, common=common):
+                    it.k = 0
+                    seen_flags = []
+
+                    def h(it2, info, args, kwargs):
+                        it.k += 1
+                        if it.k > n + 2:
+                            raise PathInfeasible()    # exploration bound on the number of rejected draws
+                        seen_flags.append(args[0] if args else kwargs.get("common_variables", False))
+                        return Ident(f"d{it.k}")
+                    it.hooks["mathy_core/problems.py:rand_var"] = h
+                    it.hooks["ext:random.shuffle"] = lambda it2, path, args, kwargs: None
+                    ex = None if nex is None else Lst([Ident(f"e{i}") for i in range(nex)])
+                    kw = {"common_variables": True} if common else {}
+                    out = it.call_function(grv, [n, ex], kw)
+                    probs = []
+                    if not isinstance(out, Lst):
+                        return [f"returns {out!r}, not a list"]
+                    items = list(out.items)
+                    if len(items) != n:
+                        probs.append(f"{len(items)} variables returned for a request of {n}")
+
+                    def known_distinct(a, b):
+                        if not (isinstance(a, Ident) and isinstance(b, Ident)):
+                            return a != b
+                        ra, rb = it.ident_find(a.name), it.ident_find(b.name)
+                        return ra != rb and frozenset([ra, rb]) in it.ident_diseq
+                    for i, a in enumerate(items):
+                        for e in (ex.items if ex is not None else []):
+                            if not known_distinct(a, e):
+                                probs.append(f"result {a!r} can be the excluded variable {e!r}: nothing on this path tells them apart")
+                        for b in items[i + 1:]:
+                            if not known_distinct(a, b):
+                                probs.append(f"results {a!r} and {b!r} can be the same variable")
+                    if any(fl is not common for fl in seen_flags):
+                        probs.append(f"rand_var drawn with common_variables={seen_flags} for a request with common_variables={common}")
+                    return probs
+                label0 = f"get_rand_vars({n}, {'None' if nex is None else 'exclude ' + str(nex)}{', common_variables=True' if common else ''})"
+                for p in explore(prog, body, {"max_updepth": 0}, max_paths=4000):
+                    label = f"{label0} :: {p.cond[-160:] or 'first draws accepted'}"
+                    if p.outcome == "return":
+                        probs = p.value
+                        chk.verdict(not probs, "C17.R8", "C17.R8:get_rand_vars" + (":" + probs[0].split(":")[0][:60] if probs else ""),
+                                    label, "; ".join(probs[:3]), witness={"n": n, "excluded": nex, "path": p.cond[-300:]},
+                                    where=grv.where)
+                    elif p.outcome == "raise" and p.exc == "ValueError":
+                        chk.fail("C17.R8", "C17.R8:get_rand_vars:raises", label,
+                                 f"raises {p.exc} although at most {n + 2} draws were made and the pool is not exhausted: {p.note}",
+                                 witness={"n": n, "excluded": nex, "path": p.cond[-300:]}, where=grv.where)
+                    else:
+                        chk.undecided("C17.R8", f"C17.R8:{label0}", label, f"{p.outcome} {p.exc or p.note}", grv.where)
+
+
 def run_like_terms_promise(chk: Check, prog: Program) -> None:
     """gen_simplify_multiple_terms promises 'a polynomial problem with like terms that need to be combined': on every path
     of the random choices (term counts 2..4, thorough ..6) two of the emitted terms carry the same variable draw and the
